@@ -95,3 +95,10 @@ Theorem C10_journal_at_k :
   /\ hit (PAt (S k) kd) (handler r f) = (S k <=? List.length (journal PNone (handler r f))).
 Proof. exact journal_at_handlers. Qed.
 Print Assumptions C10_journal_at_k.
+
+(* A handler has no state besides the storage: whether the same provider instance served the same
+   request before (fault free) does not change the answer to the faulted request. The driver runs
+   every case both ways against this one model. *)
+Theorem C10_no_hidden_state : forall r f p, model (Req r f true p) = model (Req r f false p).
+Proof. exact warm_irrelevant. Qed.
+Print Assumptions C10_no_hidden_state.
